@@ -2079,13 +2079,21 @@ pub fn mimic_line_faults(
     lines: &[(usize, u8)],
     faults: &mut Vec<Fault>,
 ) -> bool {
+    let mixed: Vec<(bool, usize, u8)> = lines.iter().map(|(l, p)| (horizontal, *l, *p)).collect();
+    mimic_lines_mixed(ctx, s, all_cw, &mixed, faults)
+}
+
+/// The same for a set of lines of BOTH orientations (round 25): an L, a T, a cross, a frame of painted data lines -
+/// ink bleeding inward from the finder's corner, a doubled finder. (horizontal?, line, pattern) per line.
+pub fn mimic_lines_mixed(ctx: &Ctx, s: &SizeInfo, all_cw: &[u8], lines: &[(bool, usize, u8)], faults: &mut Vec<Fault>) -> bool {
     let map = match ctx.maps[s.idx].as_ref() {
         Some(m) => m,
         None => return false,
     };
     let mut damaged: Vec<usize> = Vec::new();
     let mut ops: Vec<Fault> = Vec::new();
-    for (line, pat) in lines {
+    for (horizontal, line, pat) in lines {
+        let horizontal = *horizontal;
         let len = if horizontal { s.cols } else { s.rows };
         for a in 0..len {
             let px = if horizontal { line * s.cols + a } else { a * s.cols + line };
@@ -2160,6 +2168,47 @@ fn mimic_trace(ctx: &Ctx, rng: &mut Rng, s: &SizeInfo) -> Option<Trace> {
             }
         }
         let mut faults = Vec::new();
+        if rng.chance(1, 3) {
+            // both orientations at once: a line of this orientation and one or two of the other - outermost data
+            // lines (the L next to the finder's corner, the L next to the clock tracks, a frame), lines at a region
+            // boundary, or anywhere; the same pattern on all or one each
+            let (olines, opairs) = data_lines(s, !horizontal);
+            let pick_line = |rng: &mut Rng, ls: &Vec<usize>, ps: &Vec<(usize, usize)>| -> usize {
+                match rng.below(4) {
+                    0 => ls[0],
+                    1 => ls[ls.len() - 1],
+                    2 if !ps.is_empty() => { let (a, b) = *rng.pick(ps); if rng.bit() { a } else { b } }
+                    _ => *rng.pick(ls),
+                }
+            };
+            let same = rng.chance(1, 2);
+            let pat0 = rng.below(4) as u8;
+            let mut mixed: Vec<(bool, usize, u8)> = Vec::new();
+            let shape = rng.below(4);
+            if shape == 0 {
+                // the complete frame of outermost data lines
+                for (h, ls) in [(horizontal, &lines), (!horizontal, &olines)] {
+                    mixed.push((h, ls[0], if same { pat0 } else { rng.below(4) as u8 }));
+                    mixed.push((h, ls[ls.len() - 1], if same { pat0 } else { rng.below(4) as u8 }));
+                }
+            } else {
+                // one of the four corner Ls (shape 1: always an outermost pair), else any pair / triple
+                let l1 = if shape == 1 { if rng.bit() { lines[0] } else { lines[lines.len() - 1] } } else { pick_line(rng, &lines, &pairs) };
+                let l2 = if shape == 1 { if rng.bit() { olines[0] } else { olines[olines.len() - 1] } } else { pick_line(rng, &olines, &opairs) };
+                mixed.push((horizontal, l1, pat0));
+                mixed.push((!horizontal, l2, if same { pat0 } else { rng.below(4) as u8 }));
+                if shape == 3 {
+                    let l3 = pick_line(rng, &olines, &opairs);
+                    if l3 != l2 {
+                        mixed.push((!horizontal, l3, if same { pat0 } else { rng.below(4) as u8 }));
+                    }
+                }
+            }
+            if mimic_lines_mixed(ctx, s, &all, &mixed, &mut faults) {
+                return Some(Trace { prop: "C03".into(), producer: Producer::Raw { size: s.idx, data }, faults });
+            }
+            faults.clear();
+        }
         if mimic_line_faults(ctx, s, &all, horizontal, &chosen, &mut faults) {
             return Some(Trace { prop: "C03".into(), producer: Producer::Raw { size: s.idx, data }, faults });
         }
